@@ -662,9 +662,12 @@ Fixpoint rle_decode_fuel (fuel : nat) (src : list Z) : list Z :=
   end.
 Definition rle_decode_segment (src : list Z) : list Z := rle_decode_fuel (length src) src.
 
-(* src[a:b] for a, b >= 0 *)
+(* src[a:b] for a, b >= 0 (positions clamped to the length first: a damaged
+   header may carry offsets up to 2^32, which must not be turned into unary
+   numbers) *)
 Definition slice (a b : Z) (l : list Z) : list Z :=
-  firstn (Z.to_nat (b - a)) (skipn (Z.to_nat a) l).
+  let n := zlen l in
+  firstn (Z.to_nat (Z.min (b - a) n)) (skipn (Z.to_nat (Z.min a n)) l).
 
 Fixpoint rle_cut (src : list Z) (a : Z) (rest : list Z) : list (list Z) :=
   match rest with [] => [] | b :: r => slice a b src :: rle_cut src b r end.
@@ -729,7 +732,11 @@ Definition set_byte (pos v : Z) (bs : list Z) : list Z :=
 Definition run_rle_damaged (p : params) (cut pos v : Z) (f : list Z) : val :=
   match rle_encode_frame p f with
   | Err e => VErr e
-  | Ok bs => vdecoded (decode_rle p (pad_even (set_byte pos v (damage cut bs))))
+  | Ok bs =>
+      match set_byte pos v (damage cut bs) with
+      | [] => VErr EV        (* pydicom's encapsulate refuses an empty frame (ValueError) *)
+      | d => vdecoded (decode_rle p (pad_even d))
+      end
   end.
 
 (* frame [index] of a bit-packed multi-frame stream with [samples] samples per
